@@ -159,6 +159,37 @@ pub fn generate(rng: &mut Rng, tier: Tier, emit: &mut dyn FnMut(String)) {
             emit(format!("conn {} {}", wc, ops.join(";")));
         }
     }
+    // 5. a frame that announces a large body and then silence: the reader waits (it reserves the announced length)
+    // until the peer closes or the keep-alive times out; the writer's errors; the orphan threshold
+    for len in [0x0001_0000u32, 0x0400_0000] {
+        let mut hdr = vec![0x84u8, 0, 0, 0, 0x08];
+        hdr.extend_from_slice(&len.to_be_bytes());
+        hdr.extend_from_slice(&[1, 2, 3]);
+        emit(format!("ka 1/1000/300 s;s;b{};t500;s", hex(&hdr)));
+        emit(format!("conn 0 s;s;b{};s;x;s", hex(&hdr)));
+    }
+    for _ in 0..(if quick { 40 } else { 600 }) {
+        let n = rng.range(1, 8) as usize;
+        let mut ops: Vec<String> = Vec::new();
+        let gate_at = if rng.chance(1, 3) { Some(rng.below(n as u64) as usize) } else { None };
+        for k in 0..n {
+            if gate_at == Some(k) {
+                ops.push("g".into());
+            }
+            ops.push("s".into());
+        }
+        if gate_at.is_none() && rng.bool() {
+            ops.push(format!("r{}", rng.below(n as u64)));
+        }
+        ops.push("w".into());
+        for _ in 0..rng.below(3) {
+            ops.push("s".into());
+        }
+        emit(format!("conn {} {}", rng.below(2), ops.join(";")));
+    }
+    emit(format!("conn 1 {};t2000;s", vec!["S"; 1030].join(";")));
+    emit(format!("conn 0 g;{};x;s", vec!["s"; 1030].join(";")));
+    emit(format!("ka 1/1000/300 g;{}", vec!["s"; 1028].join(";")));
     // 4. multi-thread race: submissions concurrent with a server-side reset (oracle only)
     for _ in 0..(if quick { 300 } else { 3000 }) {
         let threads = *rng.pick(&[2usize, 4, 4, 8]);
@@ -239,7 +270,7 @@ fn run_frames(bytes: &[u8], ctx: &mut Ctx) -> String {
             Err(e) => {
                 tail = match e {
                     FrameHeaderParseError::HeaderIoError(_) => {
-                        if before == 0 { "clean".to_owned() } else { format!("cutInHeader:{}", before) }
+                        if before == 0 { "boundary".to_owned() } else { format!("cutInHeader:{}", before) }
                     }
                     FrameHeaderParseError::FrameFromClient => "bad:FrameFromClient".to_owned(),
                     FrameHeaderParseError::VersionNotSupported(v) => format!("bad:Version:{}", v),
@@ -249,8 +280,8 @@ fn run_frames(bytes: &[u8], ctx: &mut Ctx) -> String {
                     _ => "other".to_owned(),
                 };
                 // ORACLE: the reader stops without error only at a frame boundary
-                if tail == "clean" && pos != bytes.len() {
-                    ctx.fail(format!("reader reported a clean end at offset {} of {}", pos, bytes.len()));
+                if tail == "boundary" && pos != bytes.len() {
+                    ctx.fail(format!("reader reported a frame boundary at offset {} of {}", pos, bytes.len()));
                 }
                 break;
             }
